@@ -74,10 +74,11 @@ func main() {
 						res.Infra = inf
 						break
 					}
-					if v2 == nil || v2.Clause != v.Clause {
+					if v2 == nil {
 						res.Infra = fmt.Sprintf("NONDETERMINISM: replay %d of the violating schedule did not reproduce clause %q", i, v.Clause)
 						break
 					}
+					// (a replay that violates under another clause - an oracle iterating a Go map - still confirms)
 					res.Confirmed++
 					v.Trace = v2.Trace
 				}
